@@ -507,14 +507,14 @@ def analysis_gets_every_recorded_text(F, res, rule="D4"):
            how="set_file_content calls: %d, in a loop: %s, iterations that can skip it: %d" % (len(sets_), bool(loops_), len(skipped)))
 
 
-def _open_test(F, f, d, g):
-    """None | 'url' | 'path': is this gate a test that the client does NOT have the file open, and by what is it keyed"""
-    c = FL.short(g.get("callee") or "")
-    if g.get("allowed") != [False] or "call_t" not in g:
-        return None
-    t = g["call_t"]
+def _open_test_call(F, f, d, t):
+    """None | 'url' | 'path': is this call a test whether the client has the file open, and by what is it keyed"""
+    c = FL.short(callee(t) or callee_def(t) or "")
     last = c.rsplit("::", 1)[-1]
     if last == "contains_key":
+        fields = FL.fields_feeding(F, f, d, t["args"][0], "Server")
+        if fields and "opened_files" not in {str(x) for x in fields}:
+            return None
         full = (t.get("fn") or {}).get("full") or ""
         targs = " ".join((t.get("fn") or {}).get("targs") or [])
         if "Url" in full + targs and not any(x in full + targs for x in ("VfsPath", "PathBuf", "FileId")):
@@ -527,11 +527,35 @@ def _open_test(F, f, d, g):
         dep = FL.depends(F, f, d, t["args"][0])
         calls = set(dep["calls"])
         for ta in (t.get("fn") or {}).get("targs", []) or []:
-            for cp in F.closures_of(f.path) if hasattr(F, "closures_of") else []:
+            # the closure type names its position; it may belong to a helper inlined into this view
+            for cp in [q for q in F.fns if q.startswith("glas::") and F.fns[q].kind == "Closure"]:
                 sp = F.fns[cp].d.get("span") or {}
-                if "{closure@" in ta and ":%s:" % sp.get("lo") in ta:
+                if "{closure@" in ta and (sp.get("file") or "").rsplit("/", 1)[-1] in ta and ":%s:" % sp.get("lo") in ta:
                     calls |= {FL.short(callee(t2) or callee_def(t2) or "") for _b2, t2 in F.fns[cp].calls()}
         return "path" if any(x.rsplit("::", 1)[-1] in ("to_vfs_path", "to_file_path") for x in calls) else "url"
+    return None
+
+
+def _open_test(F, f, d, g):
+    """None | 'url' | 'path': is this gate a test that the client does NOT have the file open, and by what is it keyed. The test
+    may sit in a predicate of the server (`self.is_opened_path(&vpath)`) whose answer is one such call."""
+    if g.get("allowed") != [False] or "call_t" not in g:
+        return None
+    t = g["call_t"]
+    r = _open_test_call(F, f, d, t)
+    if r:
+        return r
+    c = callee(t) or ""
+    h = F.fns.get(c)
+    if h is not None and h.blocks and c.startswith(S) and h.d.get("output") == "bool":
+        dh = FL.Defs(h)
+        kinds = [k for k in (_open_test_call(F, h, dh, t2) for _b2, t2 in h.calls()) if k]
+        if len(kinds) == 1:
+            if kinds[0] == "url":
+                # keyed by what the caller hands in: a decoded path argument makes it a path test
+                callsd = {FL.short(x).rsplit("::", 1)[-1] for x in FL.depends(F, f, d, t["args"][-1])["calls"]} if t["args"] else set()
+                return "path" if callsd & {"to_vfs_path", "to_file_path"} else "url"
+            return kinds[0]
     return None
 
 
